@@ -390,8 +390,16 @@ def _len_bounded_old(t, facts, loop_inv):
         return False
     if t[0] == "len":
         return True
+    if t[0] == "call" and isinstance(t[1], str) and t[1].endswith("::leaves_set"):
+        return True     # a high-water mark: at most the capacity
     if t[0] == "phi" and t in loop_inv:
         return True
+    # an element of `S.filter(|&i| i < K)` with K itself bounded (a capacity, a high-water mark, a length)
+    seq = element_of(norm_first(t)) if t[0] in ("unwrap", "idx") else None
+    if isinstance(seq, tuple) and seq and seq[0] == "call" and isinstance(seq[1], str) and seq[1].endswith("Iterator::filter") and len(seq[2]) == 2 and FB is not None:
+        b = closure_bound(seq[2][1], ("Lt", "Le"))
+        if b is not None and _len_bounded_old(b[1], facts, loop_inv):
+            return True
     if t[0] == "bin" and t[1] in ("Add", "Mul") and cint(t[3]) is not None and cint(t[3]) < SMALL and t[1] == "Add":
         return len_bounded(t[2], facts, loop_inv)
     if t[0] == "bin" and t[1] == "Sub":
